@@ -18,6 +18,8 @@ struct MSignal {
     std::vector<MAnno> annos;
     std::vector<MUtc> utcs;
     std::vector<std::pair<int64_t, int>> omit_events;   // (0-based sample count at the time, enable)
+    std::vector<std::pair<int64_t, int64_t>> omitted;   // [start,end) 0-based: blocks whose level-0 data is not stored (learnt from the file's level-1 index by the independent decoder)
+    bool in_omitted(int64_t idx) const { for (auto &g : omitted) if (idx >= g.first && idx < g.second) return true; return false; }
     int64_t length() const { return has_data ? next_id - first_id : 0; }
     uint64_t raw(int64_t idx) const;             // raw bits of sample idx (0-based)
     long double value(int64_t idx) const;        // numeric value
